@@ -10,7 +10,7 @@ CONSTANTS
   CoutStep = 1
   CoutExtra = {6, 520}
   KSet = {1, 3}
-  OSet = {1, 2, 33}
+  OSet = {1, 33}
   WSet = {0, 2, 4, 8}
   ASet = {2, 4, 8}
 INVARIANT AllDefined
